@@ -249,7 +249,9 @@ def build_and_run(program, cfg, workdir, ubsan=True):
             return {'status': 'confirmed', 'output': '[%s] replay did not terminate within 60 s (hang)' % cc, 'exit': None}
         out = (r.stdout + r.stderr)[-3000:]
         outs.append('[%s -O1 -fsanitize=undefined]\n%s' % (cc, out))
-        if r.returncode != 0 or 'runtime error' in out:
+        # UB reports count only when they are located in AVEL's own headers (not in the generated harness)
+        ub = [l for l in out.splitlines() if 'runtime error' in l and '/include/avel/' in l]
+        if r.returncode != 0 or ub:
             return {'status': 'confirmed', 'output': '\n'.join(outs), 'exit': r.returncode}
     if not built:
         return {'status': 'build-failed', 'output': '\n'.join(outs)}
